@@ -70,7 +70,8 @@ class Env:
 def m_field(ctx: Ctx) -> str:
     roles = C.roles_of(ctx)
     ew = roles.estimate_writer
-    fs = {m.base_expr.attr for m in roles.sub_writers(roles.method_cls, 'M') if m.func is ew}
+    mine = set(roles.helpers_of(ew))
+    fs = {m.base_expr.attr for m in roles.sub_writers(roles.method_cls, 'M') if m.func in mine}
     return next(iter(fs)) if fs else 'M'
 
 
@@ -79,9 +80,11 @@ def z_field(ctx: Ctx) -> str:
     roles = C.roles_of(ctx)
     up = roles.optimum_updater
     fs = set()
+    mine = set(roles.helpers_of(up))
     for m in roles.mutations():
-        if m.func is up and m.kind in ('sub', 'aug') and isinstance(m.base_expr, ast.Attribute) and \
-                isinstance(m.base_expr.value, ast.Name) and m.base_expr.value.id == up.param_names[0]:
+        if m.func in mine and m.kind in ('sub', 'aug') and isinstance(m.base_expr, ast.Attribute) and \
+                isinstance(m.base_expr.value, ast.Name) and m.func.param_names and \
+                m.base_expr.value.id == m.func.param_names[0]:
             fs.add(m.base_expr.attr)
     if len(fs) != 1:
         raise AnalysisError(f'cannot identify the best-value table written by {up.short}: {sorted(fs)}')
